@@ -524,6 +524,12 @@ def handshakes(ctx: Ctx, n: int) -> None:
             plan.update({"lose": None, "fail_send": None, "third_party": None, "resp_late": 0.0, "give_up": None, "retry_gap": 6.0, "delay": G,
                          "repeat": [1, 1, 2, 1, 3, 1][trial - 6], "late_return": ["offer", "accept", "offer+accept", "offer+accept", "accept", "offer"][trial - 6],
                          "late_by": [0.3, 0.3, 0.6, 4 * G, 0.6, 2.0][trial - 6]})
+        elif trial < 18:   # then: the send of ONE handshake frame fails for good (no echo after every retransmission), everything else undisturbed;
+            # and the supplicant's caller gives up while the confirm is on its way
+            k = trial - 12
+            plan.update({"lose": None, "fail_send": ["offer", "accept", "confirm", "confirm", None, None][k], "third_party": None, "resp_late": 0.0, "retry_gap": [6.0, 6.0, 6.0, 0.0, 6.0, 0.0][k],
+                         "delay": [G, G, G, 0.5, 0.5, 0.5][k], "repeat": 1, "late_return": None,
+                         "give_up": [None, None, None, None, ("supp", 0.2 + 0.5 + 0.5 + 0.25), ("supp", 0.2 + 0.5 + 0.5 + 0.25)][k]})
         loop = VLoop(lifo=plan["lifo"])
         asyncio.set_event_loop(loop)
         errs = []
